@@ -76,8 +76,7 @@ def classification : List (Site × Verdict) := [
   (("interpreter/util.go", "Interpreter.callFunc", 0), .covered ``perm_invariant_rebuild ("evaluated arguments (a map built from the ordered argument list) → new scope; " ++ insertOnly)),
   (("interpreter/value/cast.go", "deepCastRecursive", 0), .covered ``perm_invariant_sortByKey ("after the fix for V35: " ++ sortedFirst ++ " (before: the first failing field in map order was reported)")),
   (("interpreter/value/cast.go", "DeepCast", 0), .covered ``perm_invariant_sortByKey ("after the fix for V35: " ++ sortedFirst ++ " (before: the first failing field in map order was reported)")),
-  (("interpreter/value/json.go", "marshalValue", 0), .covered ``perm_invariant_rebuild ("any-object fields → map for encoding/json (which sorts keys); " ++ insertOnly)),
-  (("interpreter/value/json.go", "marshalValue", 1), .covered ``perm_invariant_rebuild ("object fields → map for encoding/json; " ++ insertOnly)),
+  (("interpreter/value/json.go", "sortedFieldKeys", 0), .covered ``perm_invariant_sortByKey ("field names of an object / any-object for to_json (repaired: finding M4 — the loops of marshalValue ranged over the map and returned at the first field that cannot be encoded, so the error named a field in map order); " ++ sortedFirst)),
   (("interpreter/value/json.go", "unmarshalValue", 0), .covered ``perm_invariant_rebuild ("decoded JSON object → fields; the error return is unreachable for values produced by encoding/json; " ++ insertOnly)),
   (("interpreter/value/valueAnyObject.go", "containsAnyObject", 0), .covered ``perm_invariant_any "is the any-object contained in some field (repair X29): an existence test"),
   (("interpreter/value/valueAnyObject.go", "containsAnyObject", 1), .covered ``perm_invariant_any "is the any-object contained in some field (repair X29): an existence test"),
